@@ -66,6 +66,7 @@ def analyse(job):
                 with open(p, "w", encoding="utf-8") as f:
                     f.write(text)
             res["runtime"] = P.run_node_project(rundir, run["main"])
+    pre = install_preprocess_recorder()
     s = job["settings"]
     st = lianrun.write_settings(os.path.join(root, "st"), entry=s["entry"], source=s["source"], sink=s["sink"], propagation=s["propagation"])
     ws = os.path.join(root, "ws")
@@ -83,7 +84,60 @@ def analyse(job):
         return res
     res.update(extract(lianrun.ws_dir(ws), "in"))
     res["cpu_s"] = round(time.process_time(), 2)
+    res["preprocess_events"] = pre["events"]
+    res["backmap"] = {}
+    for rel, text in job["files"].items():
+        outs = pre["by_text"].get(text)
+        if outs is not None and outs != text and _lines_moved(text, outs):
+            res["backmap"][rel] = line_backmap(text, outs)
     return res
+
+
+def install_preprocess_recorder():
+    """Recording wrapper on EventManager.notify: what lian's text preprocessing turned each source text into."""
+    import lian.events.event_manager as em
+    from lian.config.constants import EVENT_KIND
+    rec = {"events": 0, "by_text": {}}
+    orig = em.EventManager.notify
+
+    def wrapped(self, data, *a, **k):
+        before = data.in_data if getattr(data, "event", None) == EVENT_KIND.ORIGINAL_SOURCE_CODE_READY else None
+        r = orig(self, data, *a, **k)
+        try:
+            if isinstance(before, str):
+                rec["events"] += 1
+                if isinstance(data.out_data, str):
+                    rec["by_text"][before] = data.out_data
+        except Exception:
+            pass
+        return r
+    em.EventManager.notify = wrapped
+    return rec
+
+
+def _lines_moved(a, b):
+    """True when some non-blank line of a stands on another line number in b."""
+    la, lb = a.split("\n"), b.split("\n")
+    if len(la) != len(lb):
+        return True
+    return any((x.strip() == "") != (y.strip() == "") for x, y in zip(la, lb))
+
+
+def line_backmap(orig, pre):
+    """[original line of preprocessed line 1, 2, ...] by aligning the two texts line-wise."""
+    import difflib
+    la, lb = orig.split("\n"), pre.split("\n")
+    sm = difflib.SequenceMatcher(None, [x.strip() for x in la], [x.strip() for x in lb], autojunk=False)
+    back = [0] * len(lb)
+    for tag, i1, i2, j1, j2 in sm.get_opcodes():
+        for j in range(j1, j2):
+            if tag == "equal":
+                back[j] = i1 + (j - j1) + 1
+            elif tag == "replace":
+                back[j] = min(i1 + (j - j1), i2 - 1) + 1
+            else:       # insert: lines that exist only in the preprocessed text belong to the last original line before them
+                back[j] = max(i1, 1)
+    return back
 
 
 def extract(wsd, in_name):
@@ -216,8 +270,27 @@ def extract(wsd, in_name):
 # ---------------------------------------------------------------------------------------------------
 # parent: normalisation through the maps, comparison, classification
 
-def _shift_fns(files):
-    return {rel: edits.py_unshift(t) for rel, t in files.items() if rel.endswith(".py") and edits.py_import_list_extra(t)}
+def _shift_fns(res):
+    """Per-file preprocessed-line -> original-line functions from the preprocessing the child observed."""
+    out = {}
+    for rel, back in (res.get("backmap") or {}).items():
+        out[rel] = (lambda line, back=back: back[line - 1] if 1 <= line <= len(back) else line - (len(back) - (back[-1] if back else 0)))
+    return out
+
+
+def shift_feature(lang, files):
+    """Which input feature triggers lian's line-shifting preprocessing (part of the mechanism signature)."""
+    import re
+    feats = []
+    for rel, t in sorted(files.items()):
+        if lang == "python" and edits.py_import_list_extra(t) and "import-list" not in feats:
+            feats.append("import-list")
+        if lang == "php":
+            if re.search(r"^\s*namespace\s+[^;{]+;", t, re.M) and "php-namespace-stmt" not in feats:
+                feats.append("php-namespace-stmt")
+            if re.search(r"/\*[^*]*\n.*?\*/", t, re.S) and "php-block-comment" not in feats:
+                feats.append("php-block-comment")
+    return "+" + "+".join(feats) if feats else "+preprocessed-text"
 
 
 def _unshift_loc(fns, rel, line):
@@ -360,7 +433,7 @@ def classify(table, only_a, only_b):
     return out
 
 
-def compare_pair(base_files, edited_files, res_a, res_b, mp):
+def compare_pair(lang, base_files, edited_files, res_a, res_b, mp):
     """-> (diffs [(table, what, witness, known_mechanism_suffix)], sizes of the base tables)"""
     def diff(fa, fb):
         ta = normalise(res_a, fa)
@@ -373,7 +446,8 @@ def compare_pair(base_files, edited_files, res_a, res_b, mp):
         raw, ta = None, normalise(res_a, {})
         unm = str(e)
     sizes = {t: len(ta[t]) for t in TABLES}
-    fa, fb = _shift_fns(base_files), _shift_fns(edited_files)
+    fa, fb = _shift_fns(res_a), _shift_fns(res_b)
+    suffix = shift_feature(lang, base_files)
     out = []
     if raw is not None and not any(raw[t][0] or raw[t][1] for t in TABLES):
         return out, sizes
@@ -393,7 +467,7 @@ def compare_pair(base_files, edited_files, res_a, res_b, mp):
             continue
         if comp is not None and not (comp[t][0] or comp[t][1]):
             wit = {"expected": sorted(r[0], key=str)[:3], "got": sorted(r[1], key=str)[:3]} if raw is not None else {}
-            out.append((t, "shifted-by-preprocessing", wit, "+import-list"))
+            out.append((t, "shifted-by-preprocessing", wit, suffix))
             continue
         use, partly = r, False
         if comp is not None and raw is not None and len(comp[t][0]) + len(comp[t][1]) < len(r[0]) + len(r[1]):
@@ -403,7 +477,7 @@ def compare_pair(base_files, edited_files, res_a, res_b, mp):
         for what, wit in classify(t, use[0], use[1]):
             out.append((t, what, wit, ""))
         if partly:
-            out.append((t, "shifted-by-preprocessing", {"note": "part of the difference vanishes when lines are taken back through the import-list shift"}, "+import-list"))
+            out.append((t, "shifted-by-preprocessing", {"note": "part of the difference vanishes when lines are taken back through the import-list shift"}, suffix))
     return out, sizes
 
 
@@ -625,7 +699,7 @@ def judge(chk, prog, steps, edited_files, res_a, res_b, reducible, case_extra=No
         sig = f"{label_of(steps)}:analysis:died-after-edit:{res_b['died']}"
         fails.append((sig, f"{prog['name']}: the base project is analysed, the edited one dies: {res_b['died']} {res_b.get('died_msg', '')}", case))
         return fails, None
-    diffs, sizes = compare_pair(prog["files"], edited_files, res_a, res_b, mp)
+    diffs, sizes = compare_pair(prog["lang"], prog["files"], edited_files, res_a, res_b, mp)
     seen = set()
     for table, what, wit, suffix in diffs:
         sig = f"{label_of(steps, suffix)}:{table}:{what}"
